@@ -1356,7 +1356,9 @@ class LangServer:
                 if ast_old is not None:
                     for key in ast_old.global_dict:
                         self.obj_tree.pop(key, None)
-                # Links of other files into the removed objects are now stale
+                # Includes of, and links into, the removed objects are now stale
+                for _, tmp_file in self.workspace.items():
+                    tmp_file.ast.resolve_includes(self.workspace, path=filepath)
                 self.link_version = (self.link_version + 1) % 1000
                 for _, tmp_file in self.workspace.items():
                     tmp_file.ast.resolve_links(self.obj_tree, self.link_version)
